@@ -1,9 +1,38 @@
+/-
+  Oracle.C14 — runs Model.Pools on the client programs the c14 harness executed against
+  the real valuePool (lines `op args = impl-result`) and prints what the model returns.
+-/
 import Oracle.Proto
+import GoluaVerif.Model.Pools
 namespace Oracle.C14
+open GoluaVerif.Model.Pools Oracle
 
-/-- placeholder: the oracle driver for C14 is not built yet -/
+def allZero (l : List Nat) : Bool := l.all (· == 0)
+
+def stepLine (s : Sys) (line : String) : Sys × String :=
+  match (line.splitOn " = ").head!.splitOn " " with
+  | ["new", size, maxAge] => (Sys.init size.toNat! maxAge.toNat!, "-")
+  | ["get", sz] =>
+    let (s', _) := s.step (.get sz.toNat!)
+    match s'.held.getLast? with
+    | some (_, c) => (s', s!"{c.id} {c.vals.length} {if allZero c.vals then 1 else 0}")
+    | none => (s', "model-error")
+  | ["write", h, idx, v] => ((s.step (.write h.toNat! idx.toNat! v.toNat!)).1, "-")
+  | ["read", h, idx] =>
+    match (s.step (.read h.toNat! idx.toNat!)).2 with
+    | some v => (s, toString v)
+    | none => (s, "model-error")
+  | ["release", h] => ((s.step (.release h.toNat!)).1, "-")
+  | _ => (s, "bad-line")
+
 def main (_args : List String) : IO UInt32 := do
-  IO.eprintln "oracle mode c14: not built"
-  return 2
+  let stdin ← IO.getStdin
+  let stdout ← IO.getStdout
+  let st ← IO.mkRef (Sys.init 10 10)
+  forEachLine stdin fun line => do
+    let (s', out) := stepLine (← st.get) line
+    st.set s'
+    stdout.putStrLn out
+  return 0
 
 end Oracle.C14
